@@ -23,7 +23,7 @@ struct Sub {
     static const rtosc::Ports ports;
 };
 struct Sub2 { int a_rather_long_parameter_name; int x; Sub2() : a_rather_long_parameter_name(0), x(0) {} static const rtosc::Ports ports; };
-struct Odd { int pi_min, pi_max; float pf_min, pf_max; int ai_min[3]; float af_max[3]; int po_max; int po_pre; int ao_pre[3]; float volume; int vol; Odd() { memset((void *)this, 0, sizeof *this); } static const rtosc::Ports ports; };
+struct Odd { int pi_min, pi_max; float pf_min, pf_max; int ai_min[3]; float af_max[3]; int po_max; int po_pre; int ao_pre[3]; float volume; int vol; char pc_r, pc_r2; Odd() { memset((void *)this, 0, sizeof *this); pc_r2 = 1; } static const rtosc::Ports ports; };
 struct App {
     char pc; int pi; int pi_nb; int pi_neg; int pi_frac;
     float pf; float pf_log; float pf_nb; float pf_unit;
@@ -33,7 +33,7 @@ struct App {
     Odd odd;
     Sub sub; Sub subs[3]; Sub *psub; Sub subs12[12]; Sub2 sub2s[12];
     Sub psub_store;
-    App() { memset((void *)this, 0, sizeof *this); psub = &psub_store; pi_neg = -20; pf_log = 1.0f; }   // every field starts inside its declared range
+    App() { memset((void *)this, 0, sizeof *this); psub = &psub_store; pi_neg = -20; pf_log = 1.0f; odd.pc_r2 = 1; }   // every field starts inside its declared range
     static const rtosc::Ports ports;
 };
 
@@ -57,6 +57,8 @@ inline const rtosc::Ports Odd::ports = {
     rOption(po_max, rOptions(alpha, beta, gamma), rMap(max, 2), "option with an upper bound only"),
     rOption(po_pre, rOptions(saw, sawtooth, sq, square, s), "option whose earlier symbols are prefixes of later ones"),
     rArrayOption(ao_pre, 3, rOptions(tri, triangle, t), rLinear(0, 2), "option array with prefix symbols"),
+    rParam(pc_r, rLinear(0, 64), "char param that declares a range of its own"),
+    rParam(pc_r2, rLinear(1, 100), "char param whose declared range starts above 0"),
     rParamF(volume, rLinear(0, 1000), "declared before a port whose name it starts with, other type and range"),
     rParamI(vol, rLinear(0, 100), "a port whose name is the beginning of an earlier sibling's name"),
 };
@@ -193,6 +195,8 @@ inline const std::vector<Leaf> &leaves() {
     for (int i = 0; i < 3; i++) L.push_back({"/odd/af_max" + std::to_string(i), K_PARAM_F, false, true, "", "1.5", {}, 0, [i](App &a) { return vf(a.odd.af_max[i]); }});
     L.push_back({"/odd/po_max", K_OPTION, false, true, "", "2", {"alpha", "beta", "gamma"}, 0, [](App &a) { return vi(a.odd.po_max); }});
     L.push_back({"/odd/po_pre", K_OPTION, false, false, "", "", {"saw", "sawtooth", "sq", "square", "s"}, 0, [](App &a) { return vi(a.odd.po_pre); }});
+    L.push_back({"/odd/pc_r", K_PARAM_C, true, true, "0", "64", {}, 0, [](App &a) { return vi(a.odd.pc_r); }});
+    L.push_back({"/odd/pc_r2", K_PARAM_C, true, true, "1", "100", {}, 0, [](App &a) { return vi(a.odd.pc_r2); }});
     L.push_back({"/odd/volume", K_PARAM_F, true, true, "0", "1000", {}, 0, [](App &a) { return vf(a.odd.volume); }});
     L.push_back({"/odd/vol", K_PARAM_I, true, true, "0", "100", {}, 0, [](App &a) { return vi(a.odd.vol); }});
     for (int i = 0; i < 3; i++) L.push_back({"/odd/ao_pre" + std::to_string(i), K_OPTION, true, true, "0", "2", {"tri", "triangle", "t"}, 0, [i](App &a) { return vi(a.odd.ao_pre[i]); }});
@@ -202,15 +206,17 @@ inline const std::vector<Leaf> &leaves() {
 // ------------------------------------------------------------------ recorder
 struct Out { char chan; std::vector<char> msg; };   // chan: 'r' reply, 'b' broadcast
 struct Rec : rtosc::RtData {
-    std::vector<Out> out; char locbuf[256];
-    Rec() { memset(locbuf, 0, sizeof locbuf); loc = locbuf; loc_size = sizeof locbuf; }
+    std::vector<Out> out; std::vector<char> locbuf;   // on the heap, exactly loc_size bytes: a write behind it is seen
+    Rec() : locbuf(256, 0) { loc = locbuf.data(); loc_size = locbuf.size(); }
+    Rec(const Rec &o) : rtosc::RtData(o), out(o.out), locbuf(o.locbuf) { loc = locbuf.data(); loc_size = locbuf.size(); }
+    Rec &operator=(const Rec &o) { rtosc::RtData::operator=(o); out = o.out; locbuf = o.locbuf; loc = locbuf.data(); loc_size = locbuf.size(); return *this; }
     using rtosc::RtData::reply; using rtosc::RtData::broadcast;
     void reply(const char *m) override { size_t n = rtosc_message_length(m, 8192); out.push_back({'r', std::vector<char>(m, m + n)}); }
     void broadcast(const char *m) override { size_t n = rtosc_message_length(m, 8192); out.push_back({'b', std::vector<char>(m, m + n)}); }
 };
 
 // ------------------------------------------------------------------ the node
-struct Incoming { int leaf; bool query; char tag; Val v; std::string sent_addr; bool expect_no_match = false; };   // sent_addr: the address as spelled in the message (e.g. an index with leading zeros); expect_no_match: the address names no element   // tag: wire type tag used for the set ('c','i','f','T','F','S','s')
+struct Incoming { int leaf; bool query; char tag; Val v; std::string sent_addr; bool expect_no_match = false; bool may_refuse = false; };   // may_refuse: the address names the element but is longer than the location buffer: doing nothing at all is accepted, doing it right is accepted   // sent_addr: the address as spelled in the message (e.g. an index with leading zeros); expect_no_match: the address names no element   // tag: wire type tag used for the set ('c','i','f','T','F','S','s')
 
 struct UndoEvent { std::string addr; Val oldv, newv; std::vector<char> raw; };
 
@@ -218,7 +224,7 @@ struct Node {
     App obj; Rec rec; std::vector<Val> model; std::string fail;   // fail: first clause violated ("" = none)
     std::string fail_clause;
     std::vector<UndoEvent> undo_events;                   // events emitted by the last dispatch
-    uint64_t dispatches = 0, sets = 0, queries = 0, clamped = 0, changed = 0, undo_seen = 0;
+    uint64_t dispatches = 0, sets = 0, queries = 0, clamped = 0, changed = 0, undo_seen = 0, refused = 0;
     bool check = true;
     Node() { auto &L = leaves(); for (auto &l : L) model.push_back(l.get(obj)); }
 
@@ -273,6 +279,7 @@ struct Node {
         Leaf l = l0; if (!in.sent_addr.empty()) l.addr = in.sent_addr;   // replies, broadcasts and undo events carry the address as it was sent
         Rec &d = rec; d.out.clear(); d.obj = &obj; d.matches = 0; undo_events.clear();   // one RtData for the node's lifetime, as applications do
         App::ports.dispatch(msg, d, true);
+        if (in.may_refuse && d.out.empty()) { bool untouched = true; for (size_t i = 0; untouched && i < L.size(); i++) untouched = L[i].get(obj) == model[i]; if (untouched) { dispatches++; refused++; return; } }
         dispatches++;
         if (in.query) queries++; else sets++;
         // expected state
